@@ -157,7 +157,8 @@ Lemma walk_eq : forall fuel rs r i index,
   match fuel with
   | O => Bad EFuel
   | S f =>
-      let bits := Z.land (Z.shiftr index (i * SPLIT_BITS)) (NODES - 1) in
+      do sh <- shr_int index (i * SPLIT_BITS);
+      let bits := Z.land sh (NODES - 1) in
       do c <- load_node rs (r * NODES + bits);
       match c with
       | Some n => walk f rs n (i - 1) index
@@ -168,6 +169,20 @@ Lemma walk_eq : forall fuel rs r i index,
       end
   end.
 Proof. intros. destruct fuel; reflexivity. Qed.
+
+(* the shifts of the descent are defined: at most five levels *)
+Lemma shr_int_ok : forall x c, 0 <= c < 32 -> shr_int x c = Good (Z.shiftr x c).
+Proof.
+  intros x c H. unfold shr_int, INT_BITS.
+  replace (0 <=? c) with true by (symmetry; apply Z.leb_le; lia).
+  replace (c <? 32) with true by (symmetry; apply Z.ltb_lt; lia). reflexivity.
+Qed.
+
+Lemma walk_shift : forall rs na D i index, Shape rs na D -> 0 <= i <= rdepth rs ->
+  shr_int index (i * SPLIT_BITS) = Good (Z.shiftr index (i * SPLIT_BITS)).
+Proof.
+  intros rs na D i index S Hi. pose proof (sh_depth _ _ _ S). apply shr_int_ok. unfold SPLIT_BITS. lia.
+Qed.
 
 Lemma child_prefix : forall index i, 1 <= i ->
   index / P (i + 1) * NODES + digit index i = index / P (i - 1 + 1).
@@ -196,7 +211,8 @@ Proof.
   - assert (i = 0) by lia. subst i. reflexivity.
   - destruct (Z.leb_spec i 0) as [L|L].
     + assert (i = 0) by lia. subst i. reflexivity.
-    + cbv zeta. rewrite bits_digit by lia.
+    + rewrite (walk_shift rs na D i index S ltac:(lia)). unfold bind at 1.
+      cbv zeta. rewrite bits_digit by lia.
       rewrite (walk_cell rs na D i index S ltac:(lia) (Hp i ltac:(lia))). unfold bind.
       rewrite (Hp (i - 1)) by lia.
       apply (IH rs na D (i - 1) index S); [lia|lia|].
@@ -278,7 +294,8 @@ Proof.
       split; [|split; [reflexivity|split; [auto|]]].
       * apply (Shape_Dext rs na D); [|assumption]. intros l q _. symmetry. apply D_path_0.
       * intros q j Hj Hd. rewrite D_path_0 in Hd. rewrite Hd. reflexivity.
-    + cbv zeta. rewrite bits_digit by lia.
+    + rewrite (walk_shift rs na D i index S ltac:(lia)). unfold bind at 1.
+      cbv zeta. rewrite bits_digit by lia.
       rewrite (walk_cell rs na D i index S ltac:(lia) Dq). unfold bind.
       set (c := index / P (i - 1 + 1)) in *.
       destruct (D (i - 1) c) eqn:Dc.
@@ -337,7 +354,7 @@ Qed.
 
 (* ---------- growth by one level ---------- *)
 Lemma Shape_grow : forall rs na D,
-  Shape rs na D ->
+  Shape rs na D -> rdepth rs <= 3 ->
   (forall q, D (rdepth rs) q = true -> q = 0) ->
   (forall q, D (rdepth rs + 1) q = (q =? 0)) ->
   let d := rdepth rs in
@@ -352,8 +369,8 @@ Lemma Shape_grow : forall rs na D,
   (forall q j, 0 <= j < NODES -> D 0 q = true -> ~ (q = 0 /\ j = 0) ->
      mget (mem rs4) (na 0 q * NODES + j) = mget (mem rs) (na 0 q * NODES + j)).
 Proof.
-  intros rs na D S Top Above d n rs2 rs3 rs4.
-  pose proof (sh_next _ _ _ S) as Nx. pose proof (sh_depth _ _ _ S) as Dp. fold d in Dp.
+  intros rs na D S D3 Top Above d n rs2 rs3 rs4.
+  pose proof (sh_next _ _ _ S) as Nx. pose proof (sh_depth _ _ _ S) as Dp. fold d in Dp, D3.
   assert (Ln : live_true rs2 n) by (apply (live_true_alloc_new (rset_depth rs (d + 1))); assumption).
   assert (NCn : node_check rs2 n = None) by (apply node_check_live; assumption).
   assert (OldNa : forall l q, 0 <= l <= d -> na_upd na (d + 1) 0 n l q = na l q).
@@ -457,6 +474,19 @@ Proof.
                   ltac:(fold d; lia) Dq Hj E). lia.
 Qed.
 
+(* the growth test: defined (the guard keeps the shift count below 32), and it is `index >= 128^(depth+1)`
+   for every index that five levels can address *)
+Lemma grow_test_spec : forall d index, 0 <= d <= 4 -> 0 <= index < P 5 ->
+  grow_test d index = Good (negb (index <? P (d + 1))).
+Proof.
+  intros d index Hd Hi. unfold grow_test. change (8 * 4) with 32.
+  destruct (Z.ltb_spec ((d + 1) * SPLIT_BITS) 32) as [L|L].
+  - rewrite shr_int_ok by (unfold SPLIT_BITS in *; lia). unfold bind.
+    rewrite shiftr_P by lia. reflexivity.
+  - assert (d = 4) by (unfold SPLIT_BITS in *; lia). subst d.
+    replace (index <? P (4 + 1)) with true by (symmetry; apply Z.ltb_lt; apply Hi). reflexivity.
+Qed.
+
 (* ---------- iv_timer_get_node ---------- *)
 Lemma to_nat_fuel : forall d, 0 <= d -> d <= Z.of_nat (Z.to_nat d).
 Proof. intros. rewrite Z2Nat.id; lia. Qed.
@@ -467,12 +497,13 @@ Lemma rget_node_same : forall rs na H index, ShapeH rs na H -> 1 <= index <= H -
 Proof.
   intros rs na H index (S & B1 & B2) Hi.
   pose proof (sh_depth _ _ _ S) as Dp.
-  unfold rget_node. rewrite shiftr_P by lia.
-  replace (index <? P (rdepth rs + 1)) with true by (symmetry; apply Z.ltb_lt; lia).
+  pose proof (P_le (rdepth rs + 1) 5 ltac:(lia)) as P5.
+  unfold rget_node. rewrite grow_test_spec by lia. unfold bind at 1.
+  replace (index <? P (rdepth rs + 1)) with true by (symmetry; apply Z.ltb_lt; lia). cbn [negb].
   unfold bind at 1. unfold load_node. rewrite (shape_load_root rs na _ S). unfold bind at 2. unfold bind at 1.
   assert (E0 : index / P (rdepth rs + 1) = 0) by (apply Z.div_small; lia).
   rewrite <- E0.
-  rewrite (walk_nop (Z.to_nat (rdepth rs)) rs na (domH H) (rdepth rs) index S ltac:(lia) (to_nat_fuel _ Dp)).
+  rewrite (walk_nop (Z.to_nat (rdepth rs)) rs na (domH H) (rdepth rs) index S ltac:(lia) (to_nat_fuel _ (proj1 Dp))).
   - unfold bind. unfold p_of. rewrite land_mod. reflexivity.
   - intros l Hl. apply domH_path; lia.
 Qed.
@@ -495,7 +526,8 @@ Proof. reflexivity. Qed.
 Local Opaque sget.
 
 Definition grow_part (rs : rstate) (index : Z) : rres rstate :=
-  if Z.shiftr index ((rdepth rs + 1) * SPLIT_BITS) =? 0 then Good rs else
+  do grow <- grow_test (rdepth rs) index;
+  if negb grow then Good rs else
     let rs1 := rset_depth rs (rdepth rs + 1) in
     let '(rs2, r) := alloc rs1 in
     do c <- load rs2 ROOT_CELL;
@@ -513,17 +545,18 @@ Definition walk_part (rs1 : rstate) (index : Z) : rres (rstate * Z) :=
   end.
 
 Lemma rget_node_eq : forall rs index, rget_node rs index = do rs1 <- grow_part rs index; walk_part rs1 index.
-Proof. reflexivity. Qed.
+Proof. intros. unfold rget_node, grow_part, bind. destruct (grow_test (rdepth rs) index); reflexivity. Qed.
+
 
 (* the next index (register): lazy allocation along its path, growth when it is 128^(depth+1) *)
-Lemma rget_node_next : forall rs s na H, ShapeH rs na H -> Rel rs s na H ->
+Lemma rget_node_next : forall rs s na H, ShapeH rs na H -> Rel rs s na H -> H + 1 < P 5 ->
   let index := H + 1 in
   let d' := if index <? P (rdepth rs + 1) then rdepth rs else rdepth rs + 1 in
   exists rs' na', rget_node rs index = Good (rs', p_of na' index) /\
     ShapeH rs' na' index /\ Rel rs' (set_depth s d') na' index /\
     get_node s index = Some (set_depth s d').
 Proof.
-  intros rs s na H (S & B1 & B2) R index d'.
+  intros rs s na H (S & B1 & B2) R H5 index d'.
   pose proof (sh_depth _ _ _ S) as Dp. set (d := rdepth rs) in *.
   destruct (Rel_fields _ _ _ _ R) as (_ & Eds & _). fold d in Eds.
   assert (Pd1 : 0 < P (d + 1)) by (apply P_pos; lia).
@@ -535,14 +568,16 @@ Proof.
     (forall q j, 0 <= j < NODES -> domH H 0 q = true -> ~ (q = 0 /\ j = 0) ->
        mget (mem rsg) (na 0 q * NODES + j) = mget (mem rs) (na 0 q * NODES + j)) /\
     get_node s index = Some (set_depth s d')).
-  { unfold grow_part. fold d. rewrite shiftr_P by (unfold index; lia). unfold d'. fold d.
-    destruct (Z.ltb_spec index (P (d + 1))) as [L|L].
+  { unfold grow_part. fold d. rewrite grow_test_spec by (unfold index; lia). unfold bind at 1. unfold d'. fold d.
+    destruct (Z.ltb_spec index (P (d + 1))) as [L|L]; cbn [negb].
     - exists rs, na. split; [reflexivity|]. split; [assumption|].
       split; [unfold d, rdepth; symmetry; apply set_depth_same|]. split; [auto|]. split; [auto|].
       rewrite <- Eds. rewrite set_depth_same. apply get_node_same; rewrite ?cap_P, ?Eds; unfold index in *; lia.
     - assert (Ei : index = P (d + 1)) by (unfold index in *; lia).
       pose proof (Shape_grow rs na (domH H) S) as SG. fold d in SG. cbv zeta in SG.
       destruct SG as (L1 & St1 & St2 & S4 & Fr).
+      + destruct (Z.eq_dec d 4) as [E4|N4]; [|lia].
+        rewrite E4 in L. change (4 + 1) with 5 in L. unfold index in *. lia.
       + intros q Hq. apply (domH_top H d q); [lia|lia|assumption].
       + intros q. apply domH_above; lia.
       + destruct (alloc (rset_depth rs (d + 1))) as [rs2 r] eqn:Ea.
